@@ -90,23 +90,18 @@ Theorem C19_precedence_file : forall (fl : flags) (doc : json) (c0 : config),
   from_flat doc = Some c0 -> eff_of fl (apply_flags fl c0) = spec_eff_c fl doc.
 Proof. exact precedence_c. Qed.
 
-(* generate -c: invalid effective settings are refused with the file system untouched;
-   otherwise the run uses exactly flag over file over default - outside C19-8 (the file
-   is validated on its own before the flags are applied). *)
+(* generate -c: invalid effective settings - from a flag, the file or a default - are
+   refused with the file system untouched; otherwise the run uses exactly flag over file
+   over default (formerly outside class C19-8). *)
 Theorem C19_generate_c : forall (f : fs) (fl : flags) (p : string) (d : json) (c0 : config),
-  fs_get f p = Some (NDoc (Some d)) -> from_flat d = Some c0 -> kf_cfile_prevalidated f fl p = false ->
+  fs_get f p = Some (NDoc (Some d)) -> from_flat d = Some c0 ->
   if spec_invalid f (spec_eff_c fl d)
-  then run_generate_c f fl p = RFail f \/ exists err, run_generate_c f fl p = RReject err f
+  then exists err, run_generate_c f fl p = RReject err f
   else (run_generate_c f fl p = RNoCommands (spec_eff_c fl d) f /\ fs_get f (e_project (spec_eff_c fl d)) <> Some NProj)
        \/ exists f', run_generate_c f fl p = RRun (spec_eff_c fl d) f'
                      /\ fs_get f (e_project (spec_eff_c fl d)) = Some NProj
                      /\ forall q, norm q <> norm (e_output (spec_eff_c fl d)) -> fs_get f' q = fs_get f q.
 Proof. exact generate_c_spec. Qed.
-
-Theorem C19_generate_c_prevalidated_refuted : exists f fl p d,
-  fs_get f p = Some (NDoc (Some d)) /\ kf_cfile_prevalidated f fl p = true /\
-  spec_invalid f (spec_eff_c fl d) = false /\ run_generate_c f fl p = RFail f.
-Proof. exact generate_c_prevalidated_refuted. Qed.
 
 (* a missing, unreadable or malformed standalone file: error, nothing written *)
 Theorem C19_generate_c_unreadable : forall (f : fs) (fl : flags) (p : string),
@@ -249,13 +244,22 @@ Example C19_ex_init_document :
   /\ run_init ex_fs il = RRun e f' /\ e_project e = "./projA" /\ e_output e = "./gen" /\ e_lib e = "zod".
 Proof. vm_compute. eexists. eexists. eexists. eexists. repeat split; try reflexivity. discriminate. Qed.
 
+(* the old C19-8 witness: the file relies on the missing default project, -p gives the real
+   one: the run uses projB and keeps the file's output path and library *)
+Example C19_ex_file_flag_project :
+  let f := [("projB", NProj); ("typegen.json", NDoc (Some (JObj [("output_path", JStr "./outF");
+                                                                  ("validation_library", JStr "zod")])))] in
+  exists e f', run_generate_c f {| f_project := Some "./projB"; f_output := None; f_validation := None;
+                                   f_verbose := false; f_visualize := false; f_force := false |} "typegen.json" = RRun e f'
+               /\ e_project e = "./projB" /\ e_output e = "./outF" /\ e_lib e = "zod".
+Proof. vm_compute. eexists. eexists. repeat split; reflexivity. Qed.
+
 Definition ex_flat : json :=
   JObj [("project_path", JStr "./projA"); ("output_path", JStr "./outF"); ("validation_library", JStr "zod");
         ("force", JBool true); ("verbose", JNull); ("unknown", JNum "1")].
 Example C19_ex_file :
   let f := (ex_fs ++ [("typegen.json", NDoc (Some ex_flat))])%list in
   (exists c0, from_flat ex_flat = Some c0 /\ force c0 = Some true /\ verbose c0 = None)
-  /\ kf_cfile_prevalidated f ex_flags "typegen.json" = false
   /\ spec_eff_c ex_flags ex_flat =
      {| e_project := "./projB"; e_output := "./outF"; e_lib := "zod"; e_verbose := true;
         e_log_verbose := true; e_visualize := false; e_force := true |}
@@ -281,7 +285,6 @@ Print Assumptions C19_oracle_roundtrip_model.
 Print Assumptions C19_roundtrip_file.
 Print Assumptions C19_precedence_file.
 Print Assumptions C19_generate_c.
-Print Assumptions C19_generate_c_prevalidated_refuted.
 Print Assumptions C19_generate_c_unreadable.
 Print Assumptions C19_precedence_build.
 Print Assumptions C19_build_fallback_refuted.
